@@ -119,7 +119,8 @@ def _evaluate(case, ctx, b, prog, opts):
         schema = schema_for(tp, opts, kw)
     except Exception as e:
         ctx.count()
-        ctx.violation({"kind": "schema_generation_crash", "exc": type(e).__name__, "msg": re.sub(r"[A-Za-z_]*\d+[A-Za-z_0-9]*", "N", str(e))[:60]},
+        ctx.violation({"kind": "schema_generation_crash", "exc": type(e).__name__, "msg": re.sub(r"[A-Za-z_]*\d+[A-Za-z_0-9]*", "N", str(e))[:60],
+                       **tdcase.schema_features(prog)},
                       {"prog": prog, "opts": opts, "data": []}, repr(e))
         return
     bad = jsoracle.check_schema(schema)
